@@ -1096,5 +1096,74 @@ def unit_deep_gtf(U_):
                           run.cases, run.fails, exhaustive=True, distinct=len(run.seen), sample=run.sample)
 
 
-UNITS = [("bounded.histories", unit_histories), ("bounded.counters", unit_counters), ("bounded.backup", unit_backup),
+def unit_failed_long_update(U_):
+    """Bounded: an update() whose feature source raises part-way - after 0, 1, a few hundred, exactly 1000, 1001, 1100, 2300
+    features - leaves the stored features and relations as they were (seen through a freshly opened FeatureDB), and the same
+    update run to its end afterwards gives the modelled content with keys never handed out before"""
+    from gffutils import feature as _feature
+    fails, cases = [], 0
+    base = ["chr1\tsrc\tgene\t100\t900\t.\t+\t.\tID=g0", "chr1\tsrc\tmRNA\t100\t900\t.\t+\t.\tID=t0;Parent=g0", "chr1\tsrc\texon\t100\t200\t.\t+\t.\tParent=t0"]
+
+    def lines(n):
+        out = []
+        for i in range(n):
+            s0 = 1000 + 10 * i
+            out += ["chr2\tsrc\tgene\t%d\t%d\t.\t+\t.\tID=G%d" % (s0, s0 + 8, i), "chr2\tsrc\tmRNA\t%d\t%d\t.\t+\t.\tID=T%d;Parent=G%d" % (s0, s0 + 8, i, i),
+                    "chr2\tsrc\texon\t%d\t%d\t.\t+\t.\tParent=T%d" % (s0, s0 + 4, i)]
+        return out
+
+    class Fault(Exception):
+        pass
+
+    def source(ls, fail_at):
+        for i, l in enumerate(ls):
+            if fail_at is not None and i == fail_at:
+                raise Fault()
+            yield _feature.feature_from_line(l)
+
+    def observe(path):
+        c = sqlite3.connect(path)
+        try:
+            return (sorted(r[0] for r in c.execute("SELECT id FROM features")), sorted(tuple(r) for r in c.execute("SELECT parent, child, level FROM relations")))
+        finally:
+            c.close()
+    positions = (0, 1, 2, 500, 999, 1000, 1001, 1100, 2300) if U_.thorough else (0, 1, 999, 1000, 1100)
+    nlines = lines(800 if U_.thorough else 400)
+    with scratch() as d:
+        for pos in positions:
+            if pos >= len(nlines):
+                continue
+            path = os.path.join(d, "f%d.db" % pos)
+            db = gffutils.create_db("\n".join(base), path, from_string=True)
+            db.conn.close()
+            before = observe(path)
+            db = gffutils.FeatureDB(path)
+            cases += 1
+            try:
+                db.update(source(nlines, pos))
+                raised = False
+            except Fault:
+                raised = True
+            except Exception as e:
+                raised = repr(e)
+            db.conn.close()
+            del db
+            gc.collect()
+            after = observe(path)
+            if raised is not True or after != before:
+                fails.append({"case": {"source raises after": pos, "features in the source": len(nlines)}, "expected": "the source's exception; %d features, %d relations as before" % (len(before[0]), len(before[1])),
+                              "observed": "raised=%r; %d features, %d relations" % (raised, len(after[0]), len(after[1]))})
+                continue
+            db = gffutils.FeatureDB(path)
+            db.update(source(nlines, None))
+            db.conn.close()
+            full = observe(path)
+            want = len(before[0]) + len(nlines)
+            if len(full[0]) != want or len(set(full[0])) != want:
+                fails.append({"case": {"after the failed update at": pos, "then": "the same update to its end"}, "expected": "%d features" % want, "observed": "%d features" % len(full[0])})
+    U_.bounded_result("C10.bounded.failed_long_update", "an update whose source raises part-way adds nothing (freshly opened database == before), whatever the number of features read before the fault; the completed update afterwards adds exactly its features",
+                      "file database, sources of %d features raising after %s features" % (len(nlines), list(positions)), cases, fails)
+
+
+UNITS = [("bounded.failed_long_update", unit_failed_long_update), ("bounded.histories", unit_histories), ("bounded.counters", unit_counters), ("bounded.backup", unit_backup),
          ("bounded.deep_gtf", unit_deep_gtf)]
